@@ -61,7 +61,8 @@ type funcResult struct {
 	Secs        float64
 	Serves      []string
 	HasContract bool
-	Vacuity     string // "ok" | "vacuous" | "unknown" | "skipped"
+	Vacuity     string // "ok" | "vacuous" | "not-refuted"
+	ReachableReturns string
 }
 
 func verifyOne(eng *Engine, key string, opts solveOpts) *funcResult {
@@ -111,7 +112,9 @@ func verifyOne(eng *Engine, key string, opts solveOpts) *funcResult {
 	vopts := opts
 	vopts.quickT = 1
 	vopts.noSecond = true
-	discharge(vc, []*Obligation{vac}, vopts)
+	vopts.quickT = 2
+	covers := append([]*Obligation{vac}, vc.covers...)
+	discharge(vc, covers, vopts)
 	discharge(vc, vc.obls, opts)
 	switch vac.Result {
 	case "sat":
@@ -120,6 +123,19 @@ func verifyOne(eng *Engine, key string, opts solveOpts) *funcResult {
 		fr.Vacuity = "vacuous"
 	default:
 		fr.Vacuity = "not-refuted"
+	}
+	// at least one return site must be reachable (not refutable), otherwise every post-condition holds vacuously
+	if len(vc.covers) > 0 {
+		reach := 0
+		for _, cv := range vc.covers {
+			if cv.Result != "unsat" {
+				reach++
+			}
+		}
+		fr.ReachableReturns = fmt.Sprintf("%d/%d", reach, len(vc.covers))
+		if reach == 0 {
+			fr.Vacuity = "vacuous"
+		}
 	}
 	fr.Obls = vc.obls
 	fr.Secs = time.Since(t0).Seconds()
@@ -163,11 +179,31 @@ func cmdVerify(args []string) {
 				keys = append(keys, k)
 			}
 		}
+		for _, lm := range eng.specs.Lemmas {
+			keys = append(keys, "lemma:"+lm.Name)
+		}
 	} else {
 		keys = strings.Split(*fkeys, ",")
 	}
 	bad := 0
 	for _, k := range keys {
+		if strings.HasPrefix(k, "lemma:") {
+			for _, lm := range eng.specs.Lemmas {
+				if lm.Name == k[6:] {
+					lr := verifyLemma(eng, lm, opts)
+					fmt.Printf("== lemma %s: %d/%d discharged\n", lm.Name, lr.Discharged, len(lr.Obls))
+					for _, o := range lr.Obls {
+						if o.Result != "unsat" || *verbose {
+							fmt.Printf("   [%s %s %.2fs] %s %s %s\n", o.Result, o.Backend, o.Secs, o.Name, o.Src, o.Output)
+						}
+						if o.Result != "unsat" {
+							bad++
+						}
+					}
+				}
+			}
+			continue
+		}
 		fr := verifyOne(eng, k, opts)
 		nOK := 0
 		for _, o := range fr.Obls {
@@ -175,7 +211,7 @@ func cmdVerify(args []string) {
 				nOK++
 			}
 		}
-		fmt.Printf("== %s: %d/%d discharged, vacuity=%s, %.1fs\n", k, nOK, len(fr.Obls), fr.Vacuity, fr.Secs)
+		fmt.Printf("== %s: %d/%d discharged, vacuity=%s, returns reachable %s, %.1fs\n", k, nOK, len(fr.Obls), fr.Vacuity, fr.ReachableReturns, fr.Secs)
 		for _, u := range fr.Unsupported {
 			fmt.Println("   UNSUPPORTED:", u)
 		}
